@@ -205,6 +205,7 @@ void tr_close_sim(void *sock)
 	sim_log(EV_IO, (2u << 8) | (unsigned)p.si, 0);
 	p.open = false;
 	p.inq.clear();
+	p.notify_unanswered = false; // the connection on which the notify arrived is gone
 	sim_sched_point();
 }
 
@@ -265,6 +266,7 @@ int tr_recv_sim(const void *sock, void *buf, const size_t len, const time_t time
 	sim_sched_point();
 	sim_cancel_point();
 	unsigned k = ++p.recv_calls;
+	p.frag_retry_watch = false;
 	W.ctx.count("recv_calls");
 	W.event("recv", p.si);
 	if (p.cur_x >= 0)
@@ -363,11 +365,16 @@ int tr_send_sim(const void *sock, const void *pdu, const size_t len, const time_
 		// tr_send_all gives up on this PDU: what it has written so far stays on the wire as a fragment (the only
 		// incomplete PDU C14 permits) and is not part of the next PDU
 		if (p.out_stream.size() > p.out_parsed) {
+			p.frag_written = p.out_stream.size() - p.out_parsed;
 			p.out_stream.resize(p.out_parsed);
+			p.frag_gen = p.gen;
+			p.frag_full = p.cur_pdu_full;
+			p.frag_retry_watch = true;
 			W.ctx.count("probe_pdu_fragment_after_send_fault");
 		}
 		p.wait_returned_success = false; // the poll was attempted in time; the transport refused it
-		p.notify_unanswered = false;
+		// (a Serial Notify stays unanswered: the client has to give the connection up or send the query again before it
+		// goes back to waiting)
 		return kind == "intr" ? TR_INTR : kind == "wouldblock" ? TR_WOULDBLOCK : TR_ERROR;
 	}
 	if (p.peer_closed && p.inq.empty()) {
@@ -380,6 +387,24 @@ int tr_send_sim(const void *sock, const void *pdu, const size_t len, const time_
 	if (n == 0)
 		return 0;
 	const uint8_t *b = (const uint8_t *)pdu;
+	if (p.frag_gen == p.gen) {
+		// C14: bytes of a PDU that are already on the wire must not be handed to the transport again: a send that is
+		// taken up again after a failed write (EINTR, would-block) continues where it stopped. Recognised as: the very
+		// same PDU, complete, offered again before the client has received anything else.
+		if (p.frag_retry_watch && len == p.frag_full.size() && memcmp(b, p.frag_full.data(), len) == 0)
+			W.ctx.viol("C14", "pdu-restarted", "C14:sent:pdu-restarted-after-partial-write",
+				   "socket %d: %zu byte(s) of a %zu-byte PDU (type %u) were on the wire when a write failed; the client then handed the whole PDU to "
+				   "the transport again on the same connection",
+				   p.si, p.frag_written, len, len > 1 ? b[1] : 0);
+		else
+			// (observed on the unchanged library after a failed Error Report write in a re-entered synchronisation;
+			// a failed write is outside what C14 quantifies over: counted, not judged)
+			W.ctx.count("note_bytes_after_abandoned_pdu_fragment");
+		p.frag_gen = -1;
+	}
+	p.frag_retry_watch = false;
+	if (p.out_stream.size() == p.out_parsed) // first write of a PDU: the whole PDU is in the buffer
+		p.cur_pdu_full.assign(b, b + len);
 	p.out_stream.insert(p.out_stream.end(), b, b + n);
 	if (sim_now_ns() < W.digest_until)
 		for (size_t i = 0; i < n; i++)
